@@ -261,6 +261,12 @@ def finish(res: Result):
   code = 0
   nviol = 0
   seen = set()
+  # fail closed: an obligation (proof, regeneration, correspondence) that no longer checks is a violation
+  # even when the property module did not report one - unless a violation that is NOT a known finding
+  # (a concrete new failing input) already explains it.  Known findings never excuse a broken obligation.
+  failed = [n for n, ok, _ in res.obligations if not ok]
+  if failed and not any((res.pid, v["key"]) not in known_keys for v in res.violations):
+    res.violations.append({"key": "obligation-failed:" + failed[0][:80], "what": f"{len(failed)} obligation(s) no longer check ({'; '.join(f[:100] for f in failed[:4])}); no failing input found", "data": {"failed_obligations": [(n, d) for n, ok, d in res.obligations if not ok][:10]}, "found_input": False})
   for v in res.violations:
     kk = (res.pid, v["key"])
     if kk in seen:
